@@ -31,6 +31,7 @@
 //                                constructor running and no recycler active for the key
 //   ASan/TSan on the object bytes (read while held) and inside the library.
 #include "vh.h"
+#include <signal.h>
 #include <photon/common/expirecontainer.h>
 #include <photon/common/objectcachev2.h>
 
@@ -121,7 +122,7 @@ struct Worker {
     std::atomic<int> blk_kind{0};               // 1 acquire, 2 recycling release
     std::atomic<int> blk_key{0};
     std::atomic<uint32_t> blk_obj{0};
-    bool ctor_called = false, ctor_failed = false;
+    bool ctor_called = false, ctor_failed = false, ctor_tracked = false;
     uint64_t lifetime_dtor_seen = 0;
 };
 static Worker g_w[MAXW];
@@ -138,7 +139,10 @@ static Obj* construct(Worker& w, int k, const Plan& pl, bool counted = true) {
     c_ctor.add();
     if (counted && K.constructing.fetch_add(1, vh::MO) != 0)
         vh::violation("ctor/concurrent-for-key:" + g_section, "two constructors ran at the same time for one key", vh::JObj().kv("key", k).kv("worker", w.id).str());
-    if (pl.fail) { K.fail_pending.fetch_add(1, vh::MO); K.fail_seq.fetch_add(1, vh::MO); w.ctor_failed = true; }
+    // the cool-down reference: a failed construction; in ObjectCacheV2 any construction (Box::lastcreate is set by
+    // successful ones and by update() as well, and a concurrent recycle can leave the box empty with that timestamp)
+    if (pl.fail || g_section == "v2") { K.fail_pending.fetch_add(1, vh::MO); K.fail_seq.fetch_add(1, vh::MO); w.ctor_tracked = true; }
+    if (pl.fail) w.ctor_failed = true;
     if (pl.sleep_mode == 1) thread_yield();
     else if (pl.sleep_mode == 2) { c_ctor_slept.add(); thread_usleep(pl.sleep_us); }
     Obj* o = nullptr;
@@ -175,7 +179,7 @@ static AcqCtx before_acquire(Worker& w, int k) {
     c.fp0 = K.fail_pending.load(vh::MO);
     c.lfu0 = K.last_fail_upper.load(vh::MO);
     c.t_start = vh::boottime_us();
-    w.ctor_called = false; w.ctor_failed = false;
+    w.ctor_called = false; w.ctor_failed = false; w.ctor_tracked = false;
     w.blk_key.store(k, vh::MO);
     w.blk_kind.store(1, std::memory_order_release);
     vh::event();
@@ -186,7 +190,7 @@ static AcqCtx before_acquire(Worker& w, int k) {
 static bool after_acquire(Worker& w, int k, const Plan& pl, const AcqCtx& c, Obj* o, const char* how) {
     auto& K = g_key[k];
     w.blk_kind.store(0, std::memory_order_release);
-    if (w.ctor_failed) {
+    if (w.ctor_tracked) {
         atomic_max(K.last_fail_upper, vh::boottime_us());
         K.fail_pending.fetch_sub(1, vh::MO);
     }
@@ -556,6 +560,16 @@ static bool on_stuck(std::string& key, std::string& what, std::string& wit) {
 static std::atomic<int> g_workers_done{0};
 static int g_nworkers_total = 0;
 
+// ObjectCacheV2 has a known use-after-free of the Box (see known_findings.json); without ASan it shows up as a plain
+// crash somewhere. Give that crash a key of its own instead of the driver's generic "process died" key.
+static void v2_crash_handler(int sig) {
+    static std::atomic<int> once{0};
+    if (once.exchange(1)) _exit(128 + sig);
+    vh::violation("crash/v2-section:signal-" + std::to_string(sig), "the ObjectCacheV2 section died on a signal (no sanitizer in this flavor to attribute it)", "null");
+    vh::write_summary();
+    _exit(10);
+}
+
 static void* worker_main(void* arg) {
     auto& w = *(Worker*)arg;
     if (g_section == "ptr") ptr_worker(w);
@@ -623,6 +637,14 @@ int main(int argc, char** argv) {
                        P_MUTEX_LOCK_AFTER_WAKE, P_SEM_SIGNAL_AFTER_RESUME, P_SEM_WAIT_AFTER_DEFER});
     if (g_long_den) { photon::verif::g_hooks.point = &long_stall_handler; vh::config("long_stall_den", g_long_den); }
     vh::start_supervisor(on_stuck);
+    if (g_section == "v2" && !vh::is_asan() && !vh::is_tsan()) {
+        static char altstack[64 * 1024];
+        stack_t ss; ss.ss_sp = altstack; ss.ss_size = sizeof(altstack); ss.ss_flags = 0;
+        sigaltstack(&ss, nullptr);
+        struct sigaction sa; memset(&sa, 0, sizeof(sa));
+        sa.sa_handler = v2_crash_handler; sa.sa_flags = SA_ONSTACK;
+        sigaction(SIGSEGV, &sa, nullptr); sigaction(SIGBUS, &sa, nullptr); sigaction(SIGABRT, &sa, nullptr);
+    }
 
     vh::VCpus vc;
     vh::PBarrier created(nv);
